@@ -1346,4 +1346,83 @@ theorem sched_run {c : Cfg} (hc : c.Repaired) {s : State} (hI : Inv s) {r : Nat}
     obtain ⟨j1, h1⟩ := sched_shape hI hs hq.1 (step_shape hc s e)
     exact ih (inv_stepT hc hI e) h1 hq.2
 
+/-! ## exceptional exits of the critical section -/
+
+theorem lstepT_unlocked {c : Cfg} (hr : c.releasesOnRaise = true) (ls : LState) (le : LEv) (hl : ls.locked = false) :
+    (lstepT c ls le).locked = false ∧ (lstepT c ls le).st = stepT c ls.st le.erase := by
+  unfold lstepT lstep stepT
+  cases h : step c ls.st le.erase with
+  | error er => simp [hl]
+  | ok s' =>
+    by_cases hcond : (le.raises && decide (s'.log.length > ls.st.log.length)) = true
+    · simp [hl, hr, hcond]
+    · simp [hl, hcond]
+
+/-- with the lock released on every exit, raising sends are transparent: the lock is never left held and the retry state
+evolves exactly as if the raising steps had returned normally -/
+theorem lrun_transparent {c : Cfg} (hr : c.releasesOnRaise = true) (ls : LState) (hl : ls.locked = false) (evs : List LEv) :
+    (lrun c ls evs).locked = false ∧ (lrun c ls evs).st = run c ls.st (evs.map LEv.erase) := by
+  induction evs generalizing ls with
+  | nil => exact ⟨hl, rfl⟩
+  | cons e r ih =>
+    obtain ⟨h1, h2⟩ := lstepT_unlocked hr ls e hl
+    have := ih (lstepT c ls e) h1
+    simp only [lrun, List.foldl_cons, List.map_cons, run] at this ⊢
+    rw [h2] at this
+    exact this
+
+theorem log_of_noLock (c : Cfg) (s s' : State) (e : Ev) (h : takesLock c s e = false) (hs : step c s e = .ok s') :
+    s'.log = s.log := by
+  cases e with
+  | send | run => simp [takesLock] at h
+  | closeSetpoint =>
+    simp only [takesLock] at h
+    simp only [step, h, Bool.false_eq_true, if_false, Except.ok.injEq] at hs
+    rw [← hs]
+  | recv hd d =>
+    simp only [step, checkForAnswers] at hs
+    split at hs
+    · split at hs
+      · cases hs; rfl
+      · cases hs
+    · cases hs; rfl
+  | expire i =>
+    simp only [step] at hs
+    split at hs
+    · split at hs
+      · cases hs; rfl
+      · cases hs
+    · cases hs
+  | setResend nr =>
+    simp only [step] at hs
+    split at hs <;> (cases hs; rfl)
+  | openLink nr => simp only [step, Except.ok.injEq] at hs; rw [← hs]; rfl
+  | advance dt => simp only [step, Except.ok.injEq] at hs; rw [← hs]
+  | closeRest => simp only [step, Except.ok.injEq] at hs; rw [← hs]; simp [forget]
+  | linkError => simp only [step, Except.ok.injEq] at hs; rw [← hs]; simp [forget]
+  | closeEnd => simp only [step, Except.ok.injEq] at hs; rw [← hs]; rfl
+  | linkErrorEnd => simp only [step, Except.ok.injEq] at hs; rw [← hs]; rfl
+  | openEnd => simp only [step, Except.ok.injEq] at hs; rw [← hs]; rfl
+
+/-- once the lock is left held nothing releases it, and nothing is transmitted any more -/
+theorem locked_forever (c : Cfg) (ls : LState) (hl : ls.locked = true) (evs : List LEv) :
+    (lrun c ls evs).locked = true ∧ (lrun c ls evs).st.log = ls.st.log := by
+  induction evs generalizing ls with
+  | nil => exact ⟨hl, rfl⟩
+  | cons e r ih =>
+    have key : (lstepT c ls e).locked = true ∧ (lstepT c ls e).st.log = ls.st.log := by
+      unfold lstepT lstep
+      cases h : step c ls.st e.erase with
+      | error er => exact ⟨hl, rfl⟩
+      | ok s' =>
+        simp only [hl, Bool.true_and]
+        by_cases ht : takesLock c ls.st e.erase = true
+        · simp [ht, hl]
+        · have ht' : takesLock c ls.st e.erase = false := by simpa using ht
+          have hlog := log_of_noLock c ls.st s' e.erase ht' h
+          simp [ht', hlog, hl]
+    obtain ⟨h1, h2⟩ := ih (lstepT c ls e) key.1
+    simp only [lrun, List.foldl_cons] at h1 h2 ⊢
+    exact ⟨h1, h2.trans key.2⟩
+
 end CfVerif.C10
